@@ -45,6 +45,13 @@ CHECKS = {
         note="listed findings: unbound names / inline self calls in code discarded before code generation, duplicate definitions nothing reaches, two misleading messages",
         technique="runtime monitoring with injected scoping faults (differential against the repaired twin), watchdog + crash isolation",
     ),
+    "C16": dict(
+        category="exploration",
+        text="Reference-model runtime monitor on REPL sessions: definitions of generated programs are entered line by line into a Repl configured like the repl binary, then closed expressions (parameters bound to quoted argument values, two binding forms) and the open expression; every quoted-constant answer is compared with the clvmr result of the program compiled from the same definitions and expression, every residual is compiled and run against the original on all generated argument trees.",
+        design_ref="DESIGN.md §4 C16",
+        note="two listed findings (let-bound / free variables inside conditional branches)",
+        technique="runtime differential monitoring of the partial evaluator against compile+consensus execution",
+    ),
     "C18": dict(
         category="exploration",
         text="Runtime monitor at two boundaries: the dependency listing of the real `run -M` / Python check_dependencies is compared with the files a real compilation of the same generated include graph actually opens (strace openat log), for random graphs, shadowed duplicates, embed-file kinds, dialects and search-path orders.",
